@@ -205,6 +205,76 @@ def rec_loop(seed):
     return rec
 
 
+GEN_LOOP = {   # constants of spec/GEN_IsoGrowth_<x>.cfg  ->  a fit_image request with exactly those exponents
+    'a': dict(sma0=10.0, step=0.5, minsma=3.5, maxsma=45.0),      # HasMax, KMax = 4, KMin = 3
+    'b': dict(sma0=2.0, step=0.5, minsma=0.0, maxsma=None),       # no maxsma, KMin = 4, central isophote
+    'c': dict(sma0=2.0, step=0.5, minsma=0.0, maxsma=6.0),        # HasMax, KMax = 3, KMin = 4, central isophote
+}
+_LOOP_IMG = None
+
+
+def replay_loop(args):
+    """spec -> code (IsoGrowthGen.tla): one complete behaviour of the loop machine driven through the REAL fit_image control flow, with
+    fit_isophote replaced by a stub that builds real samples / Isophote objects carrying the dictated stop codes"""
+    idx, c = args
+    global _LOOP_IMG
+    from photutils.isophote import Ellipse, EllipseGeometry
+    from photutils.isophote.isophote import Isophote
+    from photutils.isophote.sample import EllipseSample
+    warnings.simplefilter('ignore')
+    if _LOOP_IMG is None:
+        _LOOP_IMG = galaxy(0.2, 0.6, 'exp', 60.0, 60.0, n=121)
+    rq = GEN_LOOP[c['cfg']]
+    sma0, step = rq['sma0'], rq['step']
+    expo = lambda sma: -1000 if sma == 0.0 else int(round(math.log(sma / sma0) / math.log(1.0 + step)))  # noqa
+    script = [tuple(x) for x in c['calls']]
+    calls, problems = [], []
+    orig = Ellipse.fit_isophote
+
+    def stub(self, sma, step=0.1, conver=None, minit=None, maxit=None, fflag=None, maxgerr=None, sclip=3.0, nclip=0, integrmode='bilinear', linear=False,
+             maxrit=None, noniterate=False, going_inwards=False, isophote_list=None):
+        if sma == 0.0:
+            calls.append((-1000, 0, bool(noniterate)))
+            return orig(self, 0.0, isophote_list=isophote_list)
+        n = sum(1 for q in calls if q[0] != -1000)
+        if n >= len(script):
+            raise _Budget()
+        code = script[n][1]
+        geometry = isophote_list[-1].sample.geometry if isophote_list else self._geometry
+        sample = EllipseSample(self.image, sma, astep=step, linear_growth=linear, geometry=geometry, integrmode=integrmode)
+        sample.update(geometry.fix)
+        iso = Isophote(sample, 0 if code == 4 else 10, code != 3, code)
+        calls.append((expo(sma), code, bool(noniterate)))
+        if isophote_list is not None and iso.valid:
+            isophote_list.append(iso)
+        return iso
+    sig = {'cfg': c['cfg'], 'codes_seen': sorted({x[1] for x in script}), 'kind': 'loop_replay', 'law': None, 'mode': 'loop_replay', 'fix': None, 'eps': None, 'pa_is_zero': None}
+    Ellipse.fit_isophote = stub
+    got = None
+    try:
+        iso = Ellipse(_LOOP_IMG, EllipseGeometry(60.0, 60.0, sma0, 0.2, 0.6)).fit_image(sma0=sma0, minsma=rq['minsma'], maxsma=rq['maxsma'], step=step)
+        got = [[expo(i.sma), int(i.stop_code)] for i in iso]
+    except _Budget:
+        problems.append('fit_image asks for more fits than the model behaviour has')
+    except Exception as e:  # noqa
+        problems.append('fit_image raises ' + repr(e))
+    finally:
+        Ellipse.fit_isophote = orig
+    fits = [q for q in calls if q[0] != -1000]
+    if not problems:
+        if [q[0] for q in fits] != [x[0] for x in script]:
+            problems.append('requested sma exponents differ from the model behaviour')
+        elif any(q[2] != (q[1] == 4) for q in fits):
+            problems.append('non-iterative mode requested where the model is iterative (or the reverse)')
+        elif got != [list(x) for x in c['final']]:
+            problems.append('returned list differs from the model list')
+        elif (sum(1 for q in calls if q[0] == -1000) == 1) != (c['MinZero'] and bool(c['final'])):
+            problems.append('central isophote requested although minsma > 0 (or not requested for minsma = 0)')
+    if problems:
+        return [('loop_replay:' + problems[0].split(' (')[0].replace(' ', '_'), sig, {'behaviour': c, 'requested': calls, 'returned': got})]
+    return []
+
+
 def rec_polar(seed):
     from photutils.isophote import EllipseGeometry
     rng = random.Random(seed)
@@ -236,6 +306,22 @@ def run(ctx):
         r = ctx.mc('IsoGrowth', cfg, workers=2, expect_hold=False, check_ok=False)
         if not r.violated:
             raise core.Machinery(f'vacuity guard: TLC accepted the pinned growth loop ({what})')
+    # spec -> code: every complete behaviour of the machine through the real control flow (stubbed fit_isophote)
+    beh = []
+    for tag in ('a', 'b', 'c'):
+        g = ctx.tlc('IsoGrowthGen', f'GEN_IsoGrowth_{tag}.cfg', part=f'GEN:IsoGrowth/{tag}', workers=1)
+        for r in g.records:
+            if r.get('_tag') == 'GEN':
+                r['cfg'] = tag; beh.append(r)
+    if len(beh) < 5000:
+        raise core.Machinery(f'IsoGrowthGen produced only {len(beh)} behaviours')
+    if q:
+        rs = random.Random(ctx.seed); rs.shuffle(beh); beh = beh[:2500]
+    for vs in core.pmap(replay_loop, list(enumerate(beh)), chunksize=32):
+        for v in vs:
+            ctx.violation(*v)
+    ctx.evaluations += len(beh); ctx.traces += len(beh); ctx.nontrivial += sum(1 for b in beh if any(x[1] not in (0, 2) for x in b['calls']))
+    ctx.parts['loop_replay'] = {'behaviours': len(beh), 'configs': list(GEN_LOOP)}
     loops = core.pmap(rec_loop, [ctx.seed * 7001 + k for k in range(160 if q else 2400)], chunksize=2, on_raise='drop')
     lver = core.validate_batch(ctx, 'Trace_IsoGrowth', loops, 'Trace:IsoGrowth')
     for r in loops:
